@@ -83,7 +83,7 @@ func genCacheHist(rnd *rand.Rand, seed int64, idx, length int) CCase {
 				op.Mt = mtime[n]
 			}
 			c.Ops = append(c.Ops, op)
-		case k < 16: // delete from the plain loader
+		case k < 16: // delete from the plain loader (deleting from the other one needs knowledge of the cache: left to TLC)
 			n := loaderNames[1][rnd.Intn(2)]
 			if content[1][n] == 0 {
 				continue
